@@ -1813,20 +1813,22 @@ def content_node(f, name, cur, ids, out, oids, par):
             return None
         outs.append([i, c])
     if name == "Densify":
+        keys = set()
+
+        def walk(v):
+            if isinstance(v, dict) and "d" in v:
+                for k, _ in v["d"]:
+                    keys.add(k)
+        for _, c in ins:
+            walk(c.get("context"))
+            for a in c.get("actions", []) or []:
+                walk(a)
+            walk(c.get("action"))
         if step["m"] == "lookup":
+            if len(keys) > step["n"]:
+                return None          # more keys than features: the index generator starts a second shuffle (left to the table)
             step["prior"] = []
         else:
-            keys = set()
-
-            def walk(v):
-                if isinstance(v, dict) and "d" in v:
-                    for k, _ in v["d"]:
-                        keys.add(k)
-            for _, c in ins:
-                walk(c.get("context"))
-                for a in c.get("actions", []) or []:
-                    walk(a)
-                walk(c.get("action"))
             try:
                 step["hash"] = [[k, zlib.crc32(k.encode("ascii")) % step["n"]] for k in sorted(keys)]
             except Exception:
@@ -2076,6 +2078,10 @@ class C04(Property):
             "a small share (25% of multi-label string cases, 1% otherwise) is additionally unpickled and read in child interpreters with PYTHONHASHSEED 1,2,3; "
             "3% are direct GroundedFeedback memo cases (1-110 instances x 2-4 arguments, 2-3 reads) compared word by word with the memo model")
     trusted_base = [
+        "filters that rewrite interaction content (Repr, Flatten, Sparsify, Densify) and Finalize's stateless part are REAL functions in the driver (Model/C10 on the "
+        "interaction content, which the harness encodes with C10's codec; contents are matched to interned interactions through their observables); "
+        "Scale / Impute / Noise / Cycle / Binary / Grounded / Logged / Batch / Unbatch stay item maps or tables taken from the code",
+        "Densify(hashing): crc32 of the keys is computed by the harness; the C10 fix flags are detected on the tree under test by c10.detect_cfg()",
         "filters that select / order interactions (Take, Slice, Shuffle, Riffle, Reservoir, Sort, Where) are REAL functions in the driver (Model/C09, seeds through "
         "Model/C05; Reservoir's float formulas are evaluated on IEEE doubles in the driver); item-wise rewriting filters enter as their item->item map, the remaining "
         "stateless filters as their input->output table on the reference input (both taken from the code, stage by stage through the public pipes)",
@@ -2088,6 +2094,8 @@ class C04(Property):
                    "interleaved reads of two pipelines that share an unfinished Cache are treated like concurrent reads (outside the property)",
                    "time-seeded filters (seed None) excluded"]
     partial_theorems = {
+        "no_stage_writes_input": "hypothesis: no stage of the pipeline writes into the objects it receives (writesInput = false for every stage); "
+                                 "inplace_stage_counterexample shows it is necessary; second_read_same additionally needs the held addresses to exist in the store",
         "collection_members_independent": "needs one pipe object per member (objects of the pool own their nodes); shared_cache_counterexample shows a shared Cache breaks it; "
                                           "one stateful filter object handed to Environments.filter() by the caller is outside (the generator never does that for collections)",
         "caller_objects_unchanged": "hypothesis: no source rewrites the heap cell it was built from (argEdit = none); inplace_argument_edit_counterexample shows it is necessary",
